@@ -1348,4 +1348,141 @@ example : Admissible .l1 1 1 [[1], [-1]] ([0] : Pt ℝ) [[1]] ∧ Admissible .l1
     simp [pdist, dist, normOf, vsub, sumL_real, sabs_real]
   · rw [List.perm_singleton, List.singleton_inj, List.singleton_inj]; norm_num
 
+/-! ## pass 10: the selections of the float code (rounded distances) are those of the real model outside the band -/
+
+/-- **knn on rounded distances selects the neighbours of the exact model** (the tie between the float code and the real-number
+model where the harness makes index claims). `d'` is ANY list of computed distances within `δ` of the exact ones (whatever
+rounding, whatever evaluation order); every exact distance is on the selected side of a threshold `t` or beyond it by more than
+`2δ`; exactly `k` are on the selected side. Then for every unsorted-contract kernel run on `d'` the returned index set is
+`{j | dist(r, nbr[j]) on the selected side of t}`, and it is a reordering of the index list of the exact model under ANY
+sorted-contract kernel. Both `largest`. -/
+theorem knn_indices_robust (topk topkU : Bool → List ℝ → Nat → List Nat) (htk : TopkContract topk) (htu : TopkContractU topkU)
+    (o : Norm) (lg : Bool) (kk : Nat) (nbr : List (Pt ℝ)) (r : Pt ℝ) (d' : List ℝ) (δ t : ℝ) (hδ0 : 0 ≤ δ)
+    (hlen : d'.length = nbr.length)
+    (hδ : ∀ j, j < nbr.length → |d'.getD j 0 - dist o r (nbr.getD j [])| ≤ δ)
+    (hband : ∀ j, j < nbr.length → lowSide lg t (dist o r (nbr.getD j [])) ∨
+      (if lg then dist o r (nbr.getD j []) < t - 2 * δ else t + 2 * δ < dist o r (nbr.getD j [])))
+    (hcount : ((List.range nbr.length).filter fun j => decide (lowSide lg t (dist o r (nbr.getD j [])))).length = kk) :
+    (∀ j, j < nbr.length → (j ∈ topkU lg d' kk ↔ lowSide lg t (dist o r (nbr.getD j [])))) ∧
+    (topkU lg d' kk).Perm (knnRow topk o lg kk nbr r).2 := by
+  set vals := nbr.map (dist o r) with hvals
+  have hvl : vals.length = nbr.length := by simp [hvals]
+  have hg : ∀ j, j < nbr.length → vals.getD j 0 = dist o r (nbr.getD j []) := fun j hj => map_dist_getD _ nbr j hj
+  have hk : kk ≤ nbr.length := by
+    rw [← hcount]; exact (List.length_filter_le _ _).trans (by simp)
+  have hδ' : ∀ i, i < vals.length → |d'.getD i 0 - vals.getD i 0| ≤ δ := fun i hi => by
+    rw [hg i (hvl ▸ hi)]; exact hδ i (hvl ▸ hi)
+  have hband' : ∀ i, i < vals.length → lowSide lg t (vals.getD i 0) ∨
+      (if lg then vals.getD i 0 < t - 2 * δ else t + 2 * δ < vals.getD i 0) := fun i hi => by
+    rw [hg i (hvl ▸ hi)]; exact hband i (hvl ▸ hi)
+  have hcount' : ((List.range vals.length).filter fun i => decide (lowSide lg t (vals.getD i 0))).length = kk := by
+    rw [← hcount, hvl]
+    congr 1
+    apply List.filter_congr
+    intro j hj
+    rw [hg j (List.mem_range.1 hj)]
+  have hU := htu lg d' kk (hlen ▸ hk)
+  have hE := (htk lg vals kk (hvl ▸ hk)).toU
+  refine ⟨fun j hj => ?_, ?_⟩
+  · rw [← hg j hj]
+    exact TopkSpecU.robust (hlen.trans hvl.symm) hδ' hband' hcount' hU j (hvl ▸ hj)
+  · exact TopkSpecU.robust_perm (hlen.trans hvl.symm) rfl hδ' (fun i _ => by simpa using hδ0) hband' hcount' hU hE
+
+/-- **knn_filter on rounded distances**: under the same separation at the cut (`k+1` points within `t`, all others beyond
+`t + 2δ`), the mean over the points selected from the ROUNDED distance row — any kernel — is exactly the row of the model. -/
+theorem knn_filter_robust (topk topkU : Bool → List ℝ → Nat → List Nat) (htk : TopkContract topk) (htu : TopkContractU topkU)
+    (o : Norm) (pdim kk : Nat) (pts : List (Pt ℝ)) (p : Pt ℝ) (d' : List ℝ) (δ t : ℝ) (hδ0 : 0 ≤ δ)
+    (hlen : d'.length = pts.length)
+    (hδ : ∀ j, j < pts.length → |d'.getD j 0 - pdist o pdim p (pts.getD j [])| ≤ δ)
+    (hband : ∀ j, j < pts.length → pdist o pdim p (pts.getD j []) ≤ t ∨ t + 2 * δ < pdist o pdim p (pts.getD j []))
+    (hcount : ((List.range pts.length).filter fun j => decide (pdist o pdim p (pts.getD j []) ≤ t)).length = kk + 1) :
+    meanCols (width pts) ((topkU false d' (kk + 1)).map fun i => pts.getD i []) = knnMean topk o pdim kk pts p := by
+  set vals := pts.map (pdist o pdim p) with hvals
+  have hvl : vals.length = pts.length := by simp [hvals]
+  have hg : ∀ j, j < pts.length → vals.getD j 0 = pdist o pdim p (pts.getD j []) := fun j hj => map_dist_getD _ pts j hj
+  have hk : kk + 1 ≤ pts.length := by
+    rw [← hcount]; exact (List.length_filter_le _ _).trans (by simp)
+  have hδ' : ∀ i, i < vals.length → |d'.getD i 0 - vals.getD i 0| ≤ δ := fun i hi => by
+    rw [hg i (hvl ▸ hi)]; exact hδ i (hvl ▸ hi)
+  have hband' : ∀ i, i < vals.length → lowSide false t (vals.getD i 0) ∨
+      (if false then vals.getD i 0 < t - 2 * δ else t + 2 * δ < vals.getD i 0) := fun i hi => by
+    rw [hg i (hvl ▸ hi)]; simpa [lowSide, ordRel] using hband i (hvl ▸ hi)
+  have hcount' : ((List.range vals.length).filter fun i => decide (lowSide false t (vals.getD i 0))).length = kk + 1 := by
+    rw [← hcount, hvl]
+    congr 1
+    apply List.filter_congr
+    intro j hj
+    rw [hg j (List.mem_range.1 hj)]
+    simp [lowSide, ordRel]
+  have hU := htu false d' (kk + 1) (hlen ▸ hk)
+  have hE := (htk false vals (kk + 1) (hvl ▸ hk)).toU
+  have hperm := TopkSpecU.robust_perm (hlen.trans hvl.symm) rfl hδ' (fun i _ => by simpa using hδ0) hband' hcount' hU hE
+  unfold knnMean
+  exact meanCols_perm _ (hperm.map _)
+
+/-- **nbr_filter on rounded distances**: `d'` any computed distance within `δ` of the exact one on the cloud, no exact distance
+within `δ` of the radius. Then mask and output computed from `d'` are those of the model. -/
+theorem nbr_filter_robust (o : Norm) (pdim : Nat) (r δ : ℝ) (n : ℤ) (pts : List (Pt ℝ)) (d' : Pt ℝ → Pt ℝ → ℝ)
+    (hδ : ∀ p ∈ pts, ∀ q ∈ pts, |d' p q - pdist o pdim p q| ≤ δ)
+    (hband : ∀ p ∈ pts, ∀ q ∈ pts, δ < |pdist o pdim p q - r|) :
+    (pts.map fun p => decide (n ≤ (pts.countP (fun q => decide (d' p q ≤ r)) : ℤ) - 1)) = nbrMask o pdim r n pts ∧
+    selectMask pts (pts.map fun p => decide (n ≤ (pts.countP (fun q => decide (d' p q ≤ r)) : ℤ) - 1))
+      = nbrFilter o pdim r n pts := by
+  have h := nbrMask_robust o pdim r δ n pts d' hδ hband
+  exact ⟨h, by rw [h]; rfl⟩
+
+/-- the hypotheses of the robustness theorems are satisfiable with a genuinely perturbed row: exact `[0, 1, 5]`, computed
+`[1/8, 9/8, 5]`, `δ = 1/4`, threshold `1`, `k = 2` -/
+example : (∀ i, i < 3 → |([1/8, 9/8, 5] : List ℝ).getD i 0 - ([0, 1, 5] : List ℝ).getD i 0| ≤ 1/4) ∧
+    (∀ i, i < 3 → lowSide false 1 (([0, 1, 5] : List ℝ).getD i 0) ∨ (1 : ℝ) + 2 * (1/4) < ([0, 1, 5] : List ℝ).getD i 0) ∧
+    ((List.range 3).filter fun i => decide (lowSide false 1 (([0, 1, 5] : List ℝ).getD i 0))).length = 2 := by
+  refine ⟨?_, ?_, ?_⟩
+  · intro i hi
+    obtain rfl | rfl | rfl : i = 0 ∨ i = 1 ∨ i = 2 := by omega
+    all_goals norm_num [abs_le]
+  · intro i hi
+    obtain rfl | rfl | rfl : i = 0 ∨ i = 1 ∨ i = 2 := by omega
+    all_goals norm_num [lowSide, ordRel]
+  · norm_num [List.range_succ, List.filter_cons, lowSide, ordRel]
+/-- … and of `nbr_filter_robust`: two points at distance 3, radius 1, `δ = 1/2`, computed distance off by 1/4 -/
+example : ∀ p ∈ ([[0], [3]] : List (Pt ℝ)), ∀ q ∈ ([[0], [3]] : List (Pt ℝ)), (1/2 : ℝ) < |pdist .l1 1 p q - 1| := by
+  intro p hp q hq
+  simp only [List.mem_cons, List.not_mem_nil, or_false] at hp hq
+  rcases hp with rfl | rfl <;> rcases hq with rfl | rfl <;>
+    norm_num [pdist, dist, normOf, vsub, sumL_real, sabs_real, abs_of_nonneg, abs_of_neg]
+
+/-- **voxel_filter on rounded quotients assigns every point to the voxel of the model.** `y' c` is ANY computed value of
+`(p_c − min_c) / v_c` within `δ` of the exact quotient (whatever rounding of the subtraction and the division), and the exact
+quotient is farther than `δ` from every integer (the point is not within `δ·v_c` of a cell boundary): the truncated key computed
+from `y'` IS the key of the model. Keys are all that `unique` / `index_add_` / `randint` see, so the partition is the model's. -/
+theorem voxel_key_robust (tr : ℝ → Int) (htr : ∀ x : ℝ, 0 ≤ x → (tr x : ℝ) ≤ x ∧ x < (tr x : ℝ) + 1)
+    (vox : List ℝ) (pts : List (Pt ℝ)) (p : Pt ℝ) (hp : p ∈ pts) (hv : ∀ c, c < vox.length → 0 < vox.getD c 0)
+    (y' : Nat → ℝ) (δ : ℝ)
+    (hδ : ∀ c, c < vox.length → |y' c - (p.getD c 0 - (minp vox.length pts).getD c 0) / vox.getD c 0| ≤ δ)
+    (hband : ∀ c, c < vox.length → ∀ z : ℤ, δ < |(p.getD c 0 - (minp vox.length pts).getD c 0) / vox.getD c 0 - (z : ℝ)|) :
+    ((List.range vox.length).map fun c => tr (y' c)) = voxKey tr vox (minp vox.length pts) p := by
+  unfold voxKey
+  apply List.map_congr_left
+  intro c hc
+  have hc := List.mem_range.1 hc
+  simp only [k0_real]
+  apply trunc_robust tr htr _ _ δ _ (hδ c hc) (hband c hc)
+  have hmin : (minp vox.length pts).getD c 0 = minL (pts.map fun q => q.getD c 0) := by
+    unfold minp
+    rw [List.getD_eq_getElem _ _ (by simpa using hc)]
+    simp
+  have hle : minL (pts.map fun q => q.getD c 0) ≤ p.getD c 0 :=
+    minL_le _ (List.mem_map.2 ⟨p, hp, rfl⟩)
+  rw [hmin]
+  exact div_nonneg (by linarith) (hv c hc).le
+
+/-- satisfiable: quotient 5/2 (coordinate 5, minimum 0, voxel 2), computed 5/2 + 1/8, `δ = 1/4` -/
+example : |((5 : ℝ) / 2 + 1 / 8) - 5 / 2| ≤ 1 / 4 ∧ ∀ z : ℤ, (1 / 4 : ℝ) < |(5 : ℝ) / 2 - (z : ℝ)| := by
+  refine ⟨by norm_num [abs_le], fun z => ?_⟩
+  rcases le_or_gt z 2 with h | h
+  · have : (z : ℝ) ≤ 2 := by exact_mod_cast h
+    rw [abs_of_pos (by linarith)]; linarith
+  · have : (3 : ℝ) ≤ (z : ℝ) := by exact_mod_cast h
+    rw [abs_of_neg (by linarith)]; linarith
+
 end PP.Cloud
